@@ -22,6 +22,7 @@ source equals `expected` and that the predicates hold on it.
 -/
 namespace KafVerif.CoordOps
 
+-- BEGIN SECTIONS (written by harness/C12/tools/mkspec.py from the extractor output; review the diff before keeping it)
 /-- `JoinGroup` ↦ model `join` (= ensureGroup, joinMember, joinPhase, joinMark, joinFinish, joinReply, persist) — ONE step of the model -/
 def sec_JoinGroup : List Row := [
   ⟨"JoinGroup", 373232048, true, .held, 1, .lock⟩,
@@ -373,6 +374,7 @@ def sections : List (String × List Row) := [
 
 /-- the table the model was written against -/
 def expected : List Row := sections.flatMap (·.2)
+-- END SECTIONS
 
 /-! ### Predicates over a skeleton -/
 
